@@ -632,6 +632,23 @@ func genVarCase(r *RNG, id string, o varOpts) *Case {
 	if r.Intn(o.fmtWeights[0]+o.fmtWeights[1]) >= o.fmtWeights[0] {
 		format = "gff"
 	}
+	badCodon := false
+	if o.ambRef && format == "gff" && len(genes) > 0 && r.Chance(1, 8) {
+		// a reference codon whose expansions do not agree (N in its first position): the GFF route translates the
+		// reference in strict mode and has to refuse it - as an error of the command, whatever way it is run
+		g := genes[r.Intn(len(genes))]
+		p := g.codingPositions()
+		if len(p) >= 3 {
+			k := 3 * r.Intn(len(p)/3)
+			if k+g.codonStart-1 < len(p) {
+				gb := []byte(genome)
+				gb[p[k+g.codonStart-1]-1] = 'N'
+				genome = string(gb)
+				badCodon = true
+				c.Tag("untranslatable-reference-codon")
+			}
+		}
+	}
 	refName := "REF" + fmt.Sprint(r.Intn(90)+10)
 	var annText string
 	if format == "gb" {
@@ -703,6 +720,12 @@ func genVarCase(r *RNG, id string, o varOpts) *Case {
 	switch refmode {
 	case "msa":
 		at := r.Intn(len(names) + 1)
+		if at > 0 && r.Chance(1, 5) {
+			// a record in front of the reference whose ID only extends the reference's ID (a passage of the same isolate)
+			names = append([]string{}, names...)
+			names[r.Intn(at)] = refName + r.PickStr([]string{"/p4", ".2", "x", "-dup"})
+			c.Tag("id-extends-reference-id")
+		}
 		names = append(append(append([]string{}, names[:at]...), refName), names[at:]...)
 		rows = append(append(append([]string{}, rows[:at]...), m.refRow), rows[at:]...)
 	case "stdin":
@@ -763,6 +786,9 @@ func genVarCase(r *RNG, id string, o varOpts) *Case {
 	}
 	c.NonTrv = len(genes) > 0 || strings.Contains(m.refRow, "-")
 	maybeCLI(r, c, 6)
+	if badCodon && r.Chance(2, 3) {
+		c.Set("via", "cli")
+	}
 	return c
 }
 
@@ -778,7 +804,17 @@ func runVariants(c *Case, seqs []string, names []string, annText string, annSuff
 	case "crlfwrap": // CRLF line ends and every sequence (the reference included) wrapped over several lines
 		layout = layoutOf(1+int(idSeed(c.ID)%9), true)
 	}
-	msaTxt := renderFasta(names, seqs, layout)
+	// headers: the ID, and for some records a description after a blank, a TAB or several blanks (the ID is the first
+	// white-space delimited token for every reader, the reference look-up included)
+	hr := NewRNG(idSeed(c.ID) + 17)
+	headers := make([]string, len(names))
+	for i, n := range names {
+		headers[i] = n
+		if hr.Chance(1, 3) {
+			headers[i] = n + hr.PickStr([]string{" ", "\t", "  ", " \t"}) + fmt.Sprintf("isolate %d|2020", i)
+		}
+	}
+	msaTxt := renderFasta(headers, seqs, layout)
 	refID := c.Get("refname")
 	stdin := c.Get("refmode") == "stdin" || forceStdin
 	if c.Get("refmode") == "ann" {
